@@ -752,6 +752,39 @@ static void check_mov(Emu& e, unsigned W, uint64_t v, uint64_t& evals, const cha
          (unsigned long long)v, n, w[0], n > 1 ? w[1] : 0, n > 2 ? w[2] : 0, n > 3 ? w[3] : 0, (unsigned long long)got));
 }
 
+// mov sp|wsp, #imm exists only as ORR sp, zr, #bitmask (MOVZ / MOVN / MOVK with Rd = 31 write the zero register);
+// mov xzr|wzr, #imm must never be the ORR form (Rd = 31 is SP there)
+static void check_mov_sp_zr(Emu& e, unsigned W, uint64_t v, bool is_bitmask, uint64_t& evals) {
+  uint32_t w[4]; std::string why;
+  char rc = W == 64 ? 'x' : 'w';
+  a64::Gp sp = W == 64 ? a64::Gp(a64::sp) : a64::Gp(a64::wsp), zr = W == 64 ? a64::Gp(a64::xzr) : a64::Gp(a64::wzr);
+  int n = e.emit(w, a64::Inst::kIdMov, sp, Imm(v));
+  evals++;
+  if ((n >= 1) != is_bitmask) {
+    viol(fmtstr("B:mov%u:sp:%s", W, n >= 1 ? "accepts-unencodable" : "refuses-encodable"),
+         fmtstr("mov %csp, #0x%llx %s (%s, %d words, first 0x%08x); the value is %sa bitmask immediate and only ORR (immediate) can write SP", rc, (unsigned long long)v,
+                n >= 1 ? "accepted" : "refused", DebugUtils::error_as_string(e.last), n, n >= 1 ? w[0] : 0, is_bitmask ? "" : "not "));
+  }
+  else if (n >= 1) {
+    uint64_t wm = 0;
+    bool orr = n == 1 && ((w[0] >> 23) & 0x3F) == 0x24 && ((w[0] >> 29) & 3) == 1 && (w[0] >> 31) == (W == 64) && (w[0] & 31) == 31 && ((w[0] >> 5) & 31) == 31;
+    if (!orr || !decode_bit_masks((w[0] >> 22) & 1, (w[0] >> 10) & 0x3F, (w[0] >> 16) & 0x3F, true, W, &wm, nullptr) || wm != (v & mask64(W)))
+      viol(fmtstr("B:mov%u:sp:wrong-encoding", W), fmtstr("mov %csp, #0x%llx emitted %d words, first 0x%08x: not ORR %csp, %czr, #0x%llx", rc, (unsigned long long)v, n, w[0], rc, rc, (unsigned long long)(v & mask64(W))));
+  }
+  n = e.emit(w, a64::Inst::kIdMov, zr, Imm(v));
+  evals++;
+  if (n >= 1) {
+    uint64_t got = 0;
+    for (int i = 0; i < n; i++)
+      if (((w[i] >> 23) & 0x3F) != 0x25) {
+        viol(fmtstr("B:mov%u:zr:not-move-wide", W), fmtstr("mov %czr, #0x%llx emitted word %d = 0x%08x which is not MOVZ/MOVN/MOVK (ORR with Rd=31 would write SP)", rc, (unsigned long long)v, i, w[i]));
+        return;
+      }
+    if (!eval_mov_sequence(w, n, 31, &got, &why) || got != (v & mask64(W)))
+      viol(fmtstr("B:mov%u:zr:bad-sequence", W), fmtstr("mov %czr, #0x%llx emitted %d words [%08x ...]: %s (evaluates to 0x%llx)", rc, (unsigned long long)v, n, w[0], why.c_str(), (unsigned long long)got));
+  }
+}
+
 static int mode_logical(const Args& args) {
   uint64_t seed = args.u64("seed", 1), nrand = args.u64("random", 20000);
   unsigned shard = unsigned(args.u64("shard", 0)), shards = unsigned(args.u64("shards", 1));
@@ -764,8 +797,11 @@ static int mode_logical(const Args& args) {
   const Kind kinds[] = {
     { "and", a64::Inst::kIdAnd, 0, false }, { "ands", a64::Inst::kIdAnds, 0, false }, { "orr", a64::Inst::kIdOrr, 0, false },
     { "eor", a64::Inst::kIdEor, 0, false }, { "tst", a64::Inst::kIdTst, 1, false }, { "bic", a64::Inst::kIdBic, 0, true },
-    { "bics", a64::Inst::kIdBics, 0, true },
+    { "bics", a64::Inst::kIdBics, 0, true }, { "orn", a64::Inst::kIdOrn, 0, true }, { "eon", a64::Inst::kIdEon, 0, true },
   };
+  const unsigned NKINDS = sizeof(kinds) / sizeof(kinds[0]);
+  // the instruction the pseudo forms must turn into: AND / ANDS / ORR / EOR (immediate) = opc 00 / 11 / 01 / 10
+  const unsigned want_opc[] = { 0, 3, 1, 2, 3, 0, 3, 1, 2 };
   for (unsigned W : { 64u, 32u }) {
     std::vector<uint64_t> valid = logical_set(W);
     sizes += fmtstr("%s\"valid_%u\":%zu", sizes.empty() ? "" : ",", W, valid.size());
@@ -785,12 +821,15 @@ static int mode_logical(const Args& args) {
     std::sort(vals.begin(), vals.end());
     vals.erase(std::unique(vals.begin(), vals.end()), vals.end());
     a64::Gp rd = W == 64 ? a64::Gp(a64::x3) : a64::Gp(a64::w3), rn = W == 64 ? a64::Gp(a64::x5) : a64::Gp(a64::w5);
-    uint32_t ref[8];
-    for (unsigned k = 0; k < 7; k++) {
+    uint32_t ref[16];
+    for (unsigned k = 0; k < NKINDS; k++) {
       uint32_t w[4];
       int n = kinds[k].form == 0 ? e.emit(w, kinds[k].id, rd, rn, Imm(kinds[k].negate ? (~1ull & mask64(W)) : 1ull)) : e.emit(w, kinds[k].id, rn, Imm(1));
       ref[k] = n == 1 ? (w[0] & ~0x007FFC00u) : 0;
       if (n != 1) viol(fmtstr("harness:logical-ref:%s%u", kinds[k].name, W), "reference emission failed");
+      else if (((w[0] >> 29) & 3) != want_opc[k] || ((w[0] >> 23) & 0x3F) != 0x24 || (w[0] >> 31) != (W == 64))
+        viol(fmtstr("B:logical%u:%s:wrong-instruction", W, kinds[k].name), fmtstr("%s %u-bit, #imm emitted 0x%08x which is not the %s (immediate) instruction of that width", kinds[k].name, W, w[0],
+             want_opc[k] == 0 ? "AND" : want_opc[k] == 1 ? "ORR" : want_opc[k] == 2 ? "EOR" : "ANDS"));
     }
     for (size_t vi = 0; vi < vals.size(); vi++) {
       if (vi % shards != shard) continue;
@@ -812,7 +851,7 @@ static int mode_logical(const Args& args) {
           viol(fmtstr("B:logical%u:encode_logical_imm:wrong-fields", W), fmtstr("encode_logical_imm(0x%llx, %u) -> N=%u immr=%u imms=%u which decodes to 0x%llx",
                (unsigned long long)v, W, li.n, li.r, li.s, (unsigned long long)back));
       }
-      for (unsigned k = 0; k < 7; k++) {
+      for (unsigned k = 0; k < NKINDS; k++) {
         const Kind& K = kinds[k];
         uint64_t eff = K.negate ? (~v & mask64(W)) : v;     // the mask the instruction really applies
         bool kexp = member.count(eff) != 0;
@@ -844,6 +883,8 @@ static int mode_logical(const Args& args) {
       }
       check_mov(e, W, v, evals, "logical-neighbourhood");
       if (v) nontrivial++;
+      check_mov_sp_zr(e, W, v, exp, evals);
+      if (v) nontrivial += 2;
     }
   }
   printf("{\"mode\":\"logical\",\"evaluations\":%llu,\"nontrivial\":%llu,\"values\":%llu,\"accepted\":%llu,\"refused\":%llu,%s,\"xsamples\":[%s],\"violations\":%s}\n",
@@ -1277,6 +1318,529 @@ static int mode_bitfield(const Args& args) {
   return 0;
 }
 
+// ---- AdvSIMD modified immediates (movi / mvni / orr / bic Vd.T, #imm{, lsl|msl #n}) ------------------------------------
+// Arm ARM shared/functions/vector: AdvSIMDExpandImm(op, cmode, imm8) -> the 64-bit lane
+static uint64_t rep64(uint64_t v, unsigned esize) {
+  v &= mask64(esize);
+  uint64_t o = 0;
+  for (unsigned i = 0; i < 64; i += esize) o |= v << i;
+  return o;
+}
+static uint64_t advsimd_expand_imm(unsigned op, unsigned cmode, unsigned imm8) {
+  uint64_t i8 = imm8 & 0xFF;
+  switch ((cmode >> 1) & 7) {
+    case 0: case 1: case 2: case 3: return rep64(i8 << (8 * ((cmode >> 1) & 3)), 32);
+    case 4: case 5: return rep64(i8 << (8 * ((cmode >> 1) & 1)), 16);
+    case 6: return (cmode & 1) ? rep64((i8 << 16) | 0xFFFF, 32) : rep64((i8 << 8) | 0xFF, 32);
+    default: break;
+  }
+  if (!(cmode & 1) && !op) return rep64(i8, 8);
+  if (!(cmode & 1) && op) { uint64_t o = 0; for (unsigned i = 0; i < 8; i++) if ((i8 >> i) & 1) o |= 0xFFull << (8 * i); return o; }
+  uint64_t a = (i8 >> 7) & 1, b = (i8 >> 6) & 1;
+  if (!op) return rep64((a << 31) | ((b ^ 1) << 30) | ((b ? 0x1Full : 0) << 25) | ((i8 & 0x3F) << 19), 32);
+  return (a << 63) | ((b ^ 1) << 62) | ((b ? 0xFFull : 0) << 54) | ((i8 & 0x3F) << 48);
+}
+enum { MI_MOVI = 0, MI_MVNI = 1, MI_ORR = 2, MI_BIC = 3, MI_FMOV = 4 };
+static int modimm_class(unsigned op, unsigned cmode) {
+  if (cmode == 15) return MI_FMOV;
+  if (cmode == 14) return MI_MOVI;
+  if (cmode >= 12) return op ? MI_MVNI : MI_MOVI;
+  if (cmode & 1) return op ? MI_BIC : MI_ORR;
+  return op ? MI_MVNI : MI_MOVI;
+}
+// what MOVI / MVNI write into each 64-bit lane (MVNI writes the complement); ORR / BIC: the immediate they apply
+static uint64_t modimm_result(unsigned op, unsigned cmode, unsigned imm8) {
+  uint64_t x = advsimd_expand_imm(op, cmode, imm8);
+  return modimm_class(op, cmode) == MI_MVNI ? ~x : x;
+}
+
+static int mode_modimm(const Args& args) {
+  unsigned only_kind = unsigned(args.u64("kind", 99));
+  Emu e;
+  XSamples xs(unsigned(args.u64("xsamples", 100)));
+  Rng rng(args.u64("seed", 1));
+  uint64_t evals = 0, nontrivial = 0, accepted = 0, refused = 0, no_verdict_refusals = 0;
+  // ground truth: every lane value some MOVI / MVNI encoding writes
+  std::unordered_set<uint64_t> movable;
+  for (unsigned op = 0; op < 2; op++) for (unsigned cm = 0; cm < 15; cm++) {
+    int c = modimm_class(op, cm);
+    if (c != MI_MOVI && c != MI_MVNI) continue;
+    for (unsigned i = 0; i < 256; i++) movable.insert(modimm_result(op, cm, i));
+  }
+  if (movable.size() < 3000 || movable.size() > 4608) viol("harness:modimm-set", fmtstr("own AdvSIMDExpandImm produces %zu MOVI/MVNI lane values", movable.size()));
+  struct Arr { const char* name; a64::Vec reg; unsigned esize, q; };
+  const Arr arrs[] = {
+    { "v1.8b", a64::v1.b8(), 8, 0 }, { "v1.16b", a64::v1.b16(), 8, 1 }, { "v1.4h", a64::v1.h4(), 16, 0 }, { "v1.8h", a64::v1.h8(), 16, 1 },
+    { "v1.2s", a64::v1.s2(), 32, 0 }, { "v1.4s", a64::v1.s4(), 32, 1 }, { "v1.2d", a64::v1.d2(), 64, 1 }, { "d1", a64::d1, 64, 0 },
+  };
+  struct Kind { const char* name; InstId id; int cls; };
+  const Kind kinds[] = { { "movi", a64::Inst::kIdMovi_v, MI_MOVI }, { "mvni", a64::Inst::kIdMvni_v, MI_MVNI }, { "orr", a64::Inst::kIdOrr_v, MI_ORR }, { "bic", a64::Inst::kIdBic_v, MI_BIC } };
+  const uint32_t IMMF = (1u << 29) | (7u << 16) | (0xFu << 12) | (0x1Fu << 5);
+  static const unsigned lsl_ok[4][4] = { { 0 }, { 0, 8 }, { 0, 8, 16, 24 }, { 0 } };
+  auto nshifts = [](unsigned esize) { return esize == 8 ? 1u : esize == 16 ? 2u : esize == 32 ? 4u : 0u; };
+  auto eidx = [](unsigned esize) { return esize == 8 ? 0u : esize == 16 ? 1u : esize == 32 ? 2u : 3u; };
+
+  for (unsigned ki = 0; ki < 4; ki++) {
+    if (only_kind != 99 && only_kind != ki) continue;
+    const Kind& K = kinds[ki];
+    bool movish = K.cls == MI_MOVI || K.cls == MI_MVNI;
+    for (const Arr& A : arrs) {
+      if (!movish && (A.esize == 8 || A.esize == 64)) continue;     // orr / bic (immediate) exist for 16 and 32-bit elements only
+      unsigned es = A.esize;
+      uint32_t w[4];
+      // reference: the same instruction with #1
+      int rn = e.emit(w, K.id, A.reg, Imm(es == 64 ? 0xFFull : 1ull));
+      uint32_t ref = rn == 1 ? (w[0] & ~IMMF) : 0;
+      std::string kname = fmtstr("%s-%s", K.name, A.name + (A.name[0] == 'v' ? 3 : 0));
+      if (rn != 1) { viol("harness:modimm-ref:" + kname, fmtstr("reference emission %s %s, #1 failed: %s", K.name, A.name, DebugUtils::error_as_string(e.last))); continue; }
+      if (((ref >> 30) & 1) != A.q || (ref & 31) != 1 || (ref & 0x9FF80C00u) != 0x0F000400u)
+        viol("B:modimm:" + kname + ":other-bits-changed", fmtstr("%s %s, #1 emitted 0x%08x: Q / Rd / fixed bits are not those of the modified-immediate group", K.name, A.name, w[0]));
+
+      // the lane a request stands for; `explicit_shift`: 0 none, 1 lsl, 2 msl, 3 lsr (never valid)
+      auto judge = [&](uint64_t imm, int sk, unsigned amt, const char* cls) {
+        int n;
+        const int sk_given = sk;
+        if (sk == 0) n = e.emit(w, K.id, A.reg, Imm(imm));
+        else n = e.emit(w, K.id, A.reg, Imm(imm), Imm(sk == 1 ? a64::lsl(amt) : sk == 2 ? a64::msl(amt) : a64::lsr(amt)));
+        evals++;
+        if (n == 1) accepted++; else refused++;
+        // expectation
+        bool valid_req = true, must_accept = false;
+        uint64_t elem = 0;
+        // a zero amount: AsmJit reads `#imm, lsl #0` like `#imm` (element value, replicated patterns included), and
+        // a64assembler.cpp documents that the 64-bit forms take a zero amount although no shifted form exists
+        // (`#imm, lsl #0` with an immediate above 0xFF is outside the Arm syntax, but AsmJit's movi / mvni reduce a replicated
+        // pattern before they look at the shift operand: taken or not, what is emitted must be the element value)
+        bool lenient = false;
+        if (sk != 0 && amt == 0 && es == 64) sk = 0;
+        else if (sk == 1 && amt == 0 && imm > 0xFF) { sk = 0; lenient = true; }
+        if (sk == 0) {
+          if (es < 64 && (imm >> es)) valid_req = false;
+          elem = imm;
+        }
+        else if (es == 64) {
+          valid_req = false;      // no shifted form exists
+          elem = imm;
+        }
+        else if (sk == 1) {
+          bool ok = false;
+          for (unsigned i = 0; i < nshifts(es); i++) if (lsl_ok[eidx(es)][i] == amt) ok = true;
+          if (!ok || imm > 0xFF) valid_req = false;
+          elem = imm << (amt & 31);
+          must_accept = valid_req;
+        }
+        else if (sk == 2) {
+          if (!movish || es != 32 || (amt != 8 && amt != 16) || imm > 0xFF) valid_req = false;
+          elem = (imm << (amt & 31)) | mask64(amt & 31);
+          must_accept = valid_req;
+        }
+        else valid_req = false;
+        uint64_t lane = rep64(elem, es);
+        if (K.cls == MI_MVNI) lane = ~lane;
+        bool encodable = valid_req;
+        if (valid_req && (sk == 0 || es == 64)) {
+          if (movish) encodable = movable.count(lane) != 0;
+          else { encodable = false; for (unsigned i = 0; i < nshifts(es); i++) { unsigned a = lsl_ok[eidx(es)][i]; if (((elem >> a) << a) == elem && (elem >> a) <= 0xFF) encodable = true; } }
+          // the requests AsmJit's two-operand form is made for must be taken: imm8 << 8k in the given element size, and byte masks
+          if (es == 64) { must_accept = K.cls == MI_MOVI && sk == 0; for (unsigned i = 0; i < 8; i++) { unsigned b = (elem >> (8 * i)) & 0xFF; if (b != 0 && b != 0xFF) must_accept = false; } }
+          else if (!(K.cls == MI_MVNI && es == 8)) for (unsigned i = 0; i < nshifts(es); i++) { unsigned a = lsl_ok[eidx(es)][i]; if (((elem >> a) << a) == elem && (elem >> a) <= 0xFF) must_accept = true; }
+        }
+        if (lenient) must_accept = false;
+        if (encodable || (n == 1)) nontrivial++;
+        std::string key = "B:modimm:" + kname + (sk_given == 0 ? "" : sk_given == 1 ? "-lsl" : sk_given == 2 ? "-msl" : "-lsr") + ":";
+        std::string txt = fmtstr("%s %s, #0x%llx%s", K.name, A.name, (unsigned long long)imm, sk_given == 0 ? "" : fmtstr(", %s #%u", sk_given == 1 ? "lsl" : sk_given == 2 ? "msl" : "lsr", amt).c_str());
+        if (n == 1 && !encodable) {
+          viol(key + "accepts-unencodable", fmtstr("%s [%s]: accepted (word 0x%08x) but %s", txt.c_str(), cls, w[0], valid_req ? "no MOVI/MVNI/ORR/BIC encoding produces the requested lane value" : "the operands are outside the syntax (immediate above its range, shift kind / amount that does not exist for this element size)"));
+          return;
+        }
+        if (n != 1) {
+          if (must_accept) viol(key + "refuses-encodable", fmtstr("%s [%s]: refused (%s) although imm8 << 8k / the byte mask is directly encodable", txt.c_str(), cls, DebugUtils::error_as_string(e.last)));
+          else if (encodable) no_verdict_refusals++;
+          return;
+        }
+        unsigned op = (w[0] >> 29) & 1, cm = (w[0] >> 12) & 15, i8 = (((w[0] >> 16) & 7) << 5) | ((w[0] >> 5) & 31);
+        int c = modimm_class(op, cm);
+        bool cls_ok = movish ? (c == MI_MOVI || c == MI_MVNI) : c == K.cls;
+        uint64_t got = modimm_result(op, cm, i8);
+        if (!cls_ok || got != lane)
+          viol(key + "wrong-immediate", fmtstr("%s [%s] emitted 0x%08x: op:cmode:imm8 = %u:%x:0x%02x is %s and gives lane 0x%016llx, wanted lane 0x%016llx", txt.c_str(), cls, w[0], op, cm, i8,
+               c == MI_MOVI ? "MOVI" : c == MI_MVNI ? "MVNI" : c == MI_ORR ? "ORR" : c == MI_BIC ? "BIC" : "FMOV", (unsigned long long)got, (unsigned long long)lane));
+        if ((w[0] & ~IMMF) != ref)
+          viol(key + "other-bits-changed", fmtstr("%s [%s] emitted 0x%08x: bits outside op / cmode / abc / defgh differ from the same instruction with #1 (0x%08x)", txt.c_str(), cls, w[0], ref));
+        // llvm-mc knows the Arm syntax only: sample explicit forms and plain imm8 / byte masks
+        bool bytemask = true;
+        for (unsigned i = 0; i < 8; i++) { unsigned b = (imm >> (8 * i)) & 0xFF; if (b != 0 && b != 0xFF) bytemask = false; }
+        bool arm_syntax = !(K.cls == MI_MVNI && (es == 8 || es == 64)) && sk_given == sk && ((sk != 0 && es != 64 && es != 8) || (sk == 0 && (es == 64 ? bytemask : imm <= 0xFF)));   // (llvm-mc 14 takes no `lsl #0` on 8-bit elements)
+        if (arm_syntax && (rng.next() & 0x3FF) < 6) xs.add(txt, n, w);
+      };
+
+      // (1) explicit shifts: every imm8 x every amount / kind of interest, plus immediates above the range
+      static const unsigned amts[] = { 0, 1, 4, 7, 8, 9, 12, 16, 17, 24, 25, 31, 32, 33, 40, 56, 63, 64, 255 };
+      for (unsigned i8 = 0; i8 < 256; i8++)
+        for (unsigned a : amts) { judge(i8, 1, a, "imm8,lsl"); judge(i8, 2, a, "imm8,msl"); if ((i8 & 63) == 5) judge(i8, 3, a, "imm8,lsr"); }
+      for (uint64_t big : { 0x100ull, 0x101ull, 0x1FFull, 0xFF00ull, 0x10000ull, 0x100000001ull, 0x8000000000000001ull, ~0ull })
+        for (unsigned a : { 0u, 8u, 16u }) { judge(big, 1, a, "above-imm8,lsl"); judge(big, 2, a, "above-imm8,msl"); }
+      // (2) two-operand requests: every encodable element value, every value one bit away, limits and 2^32 + x
+      std::vector<uint64_t> vals;
+      for (uint64_t L : movable) {
+        uint64_t l = K.cls == MI_MVNI ? ~L : L;
+        if (rep64(l, es) == l) vals.push_back(l & mask64(es));
+      }
+      size_t members = vals.size();
+      for (size_t i = 0; i < members; i++) for (unsigned b = 0; b < es; b++) vals.push_back(vals[i] ^ (1ull << b));
+      for (uint64_t x : { 0ull, 1ull, 0xFFull, 0x100ull, 0x1FEull, 0x1FE00ull, 0xFF00ull, 0xFFFFull, 0x10000ull, 0xFF0000ull, 0xFF000000ull, 0xFFFFFFFFull, 0x100000000ull, 0x1000000FFull,
+                          0xFFFFFFFF000000FFull, 0x8000000000000000ull, ~0ull, 0x00FF00FF00FF00FFull, 0xFF00FF0000FFFF01ull })
+        vals.push_back(x);
+      for (int i = 0; i < 2000; i++) { uint64_t r = rng.next(); vals.push_back(r); vals.push_back(r & mask64(es)); vals.push_back(((r & 0xFF) << (8 * ((r >> 8) & 7))) | (1ull << 32)); }
+      std::sort(vals.begin(), vals.end()); vals.erase(std::unique(vals.begin(), vals.end()), vals.end());
+      for (uint64_t v : vals) judge(v, 0, 0, "element value");
+      if (es == 64) for (uint64_t v : vals) if ((v & 0xFF) == 0xFF) { judge(v, 1, 0, "lsl #0 on 64-bit elements"); judge(v, 1, 8, "shift on 64-bit elements"); judge(v, 2, 8, "shift on 64-bit elements"); }
+    }
+  }
+  printf("{\"mode\":\"modimm\",\"evaluations\":%llu,\"nontrivial\":%llu,\"accepted\":%llu,\"refused\":%llu,\"movable_lane_values\":%zu,\"encodable_by_another_class_refused_no_verdict\":%llu,\"xsamples\":[%s],\"violations\":%s}\n",
+         (unsigned long long)evals, (unsigned long long)nontrivial, (unsigned long long)accepted, (unsigned long long)refused, movable.size(),
+         (unsigned long long)no_verdict_refusals, xs.js.c_str(), viol_json().c_str());
+  return 0;
+}
+
+// ---- SIMD shift by immediate and fixed-point #fbits -------------------------------------------------------------------
+static a64::Vec vec_of(unsigned id, unsigned esize, unsigned lanes) {   // lanes 0 = scalar
+  a64::Vec v = a64::v(id);
+  if (!lanes) return esize == 8 ? v.b() : esize == 16 ? v.h() : esize == 32 ? v.s() : esize == 64 ? v.d() : v.q();
+  unsigned bits = esize * lanes;
+  a64::VecElementType et = esize == 8 ? a64::VecElementType::kB : esize == 16 ? a64::VecElementType::kH : esize == 32 ? a64::VecElementType::kS : a64::VecElementType::kD;
+  a64::Vec r = bits == 64 ? v.d() : v.q();
+  r.set_element_type(et);
+  return r;
+}
+static std::string vec_text(unsigned id, unsigned esize, unsigned lanes) {
+  const char c = esize == 8 ? 'b' : esize == 16 ? 'h' : esize == 32 ? 's' : 'd';
+  return lanes ? fmtstr("v%u.%u%c", id, lanes, c) : fmtstr("%c%u", c, id);
+}
+
+static int mode_simdshift(const Args& args) {
+  Emu e;
+  XSamples xs(unsigned(args.u64("xsamples", 200)));
+  Rng rng(args.u64("seed", 1));
+  uint64_t evals = 0, nontrivial = 0, accepted = 0, refused = 0;
+  enum { L = 0, R = 1, N = 2, LL = 3, F = 4 };   // left / right / narrowing right / long left / fixed-point fbits
+  struct M { const char* name; InstId id; int kind; bool scalar_all; bool scalar_d; bool hi; };   // hi: the "2" variant (upper half)
+  const M ms[] = {
+    { "shl", a64::Inst::kIdShl_v, L, false, true, false }, { "sli", a64::Inst::kIdSli_v, L, false, true, false },
+    { "sqshl", a64::Inst::kIdSqshl_v, L, true, true, false }, { "sqshlu", a64::Inst::kIdSqshlu_v, L, true, true, false }, { "uqshl", a64::Inst::kIdUqshl_v, L, true, true, false },
+    { "sshr", a64::Inst::kIdSshr_v, R, false, true, false }, { "ushr", a64::Inst::kIdUshr_v, R, false, true, false }, { "srshr", a64::Inst::kIdSrshr_v, R, false, true, false },
+    { "urshr", a64::Inst::kIdUrshr_v, R, false, true, false }, { "ssra", a64::Inst::kIdSsra_v, R, false, true, false }, { "usra", a64::Inst::kIdUsra_v, R, false, true, false },
+    { "srsra", a64::Inst::kIdSrsra_v, R, false, true, false }, { "ursra", a64::Inst::kIdUrsra_v, R, false, true, false }, { "sri", a64::Inst::kIdSri_v, R, false, true, false },
+    { "shrn", a64::Inst::kIdShrn_v, N, false, false, false }, { "shrn2", a64::Inst::kIdShrn2_v, N, false, false, true },
+    { "rshrn", a64::Inst::kIdRshrn_v, N, false, false, false }, { "rshrn2", a64::Inst::kIdRshrn2_v, N, false, false, true },
+    { "sqshrn", a64::Inst::kIdSqshrn_v, N, true, false, false }, { "sqshrn2", a64::Inst::kIdSqshrn2_v, N, false, false, true },
+    { "sqrshrn", a64::Inst::kIdSqrshrn_v, N, true, false, false }, { "sqrshrn2", a64::Inst::kIdSqrshrn2_v, N, false, false, true },
+    { "sqshrun", a64::Inst::kIdSqshrun_v, N, true, false, false }, { "sqshrun2", a64::Inst::kIdSqshrun2_v, N, false, false, true },
+    { "sqrshrun", a64::Inst::kIdSqrshrun_v, N, true, false, false }, { "sqrshrun2", a64::Inst::kIdSqrshrun2_v, N, false, false, true },
+    { "uqshrn", a64::Inst::kIdUqshrn_v, N, true, false, false }, { "uqshrn2", a64::Inst::kIdUqshrn2_v, N, false, false, true },
+    { "uqrshrn", a64::Inst::kIdUqrshrn_v, N, true, false, false }, { "uqrshrn2", a64::Inst::kIdUqrshrn2_v, N, false, false, true },
+    { "sshll", a64::Inst::kIdSshll_v, LL, false, false, false }, { "sshll2", a64::Inst::kIdSshll2_v, LL, false, false, true },
+    { "ushll", a64::Inst::kIdUshll_v, LL, false, false, false }, { "ushll2", a64::Inst::kIdUshll2_v, LL, false, false, true },
+    { "scvtf", a64::Inst::kIdScvtf_v, F, true, true, false }, { "ucvtf", a64::Inst::kIdUcvtf_v, F, true, true, false },
+    { "fcvtzs", a64::Inst::kIdFcvtzs_v, F, true, true, false }, { "fcvtzu", a64::Inst::kIdFcvtzu_v, F, true, true, false },
+  };
+  std::vector<uint64_t> amounts;
+  for (uint64_t n = 0; n <= 66; n++) amounts.push_back(n);
+  for (uint64_t n : { 127ull, 128ull, 129ull, 255ull, 256ull, (1ull << 32), (1ull << 32) + 1, (1ull << 32) + 8, (1ull << 32) + 63, (1ull << 63) + 2, ~0ull, ~0ull - 7 }) amounts.push_back(n);
+  const uint32_t HB = 0x7Fu << 16;
+  for (const M& m : ms) {
+    // operand shapes: (dst esize, dst lanes, src esize, src lanes, e = the size the immediate is relative to)
+    struct Sh { unsigned de, dl, se, sl, e; };
+    std::vector<Sh> shapes;
+    if (m.kind == L || m.kind == R || m.kind == F) {
+      for (unsigned es : { 8u, 16u, 32u, 64u }) {
+        if (m.kind == F && es == 8) continue;
+        for (unsigned bits : { 64u, 128u }) { if (es == 64 && bits == 64) continue; shapes.push_back({ es, bits / es, es, bits / es, es }); }
+        bool sc = m.kind == F ? true : (m.scalar_all || (m.scalar_d && es == 64));
+        if (sc) shapes.push_back({ es, 0, es, 0, es });
+      }
+    }
+    else if (m.kind == N) {
+      for (unsigned es : { 8u, 16u, 32u }) {
+        shapes.push_back({ es, m.hi ? 128 / es : 64 / es, es * 2, 128 / (es * 2), es });
+        if (m.scalar_all) shapes.push_back({ es, 0, es * 2, 0, es });
+      }
+    }
+    else {
+      for (unsigned es : { 8u, 16u, 32u }) shapes.push_back({ es * 2, 128 / (es * 2), es, m.hi ? 128 / es : 64 / es, es });
+    }
+    for (const Sh& sh : shapes) {
+      a64::Vec d = vec_of(3, sh.de, sh.dl), s = vec_of(5, sh.se, sh.sl);
+      std::string ops = vec_text(3, sh.de, sh.dl) + ", " + vec_text(5, sh.se, sh.sl);
+      std::string kname = fmtstr("%s:%s", m.name, (vec_text(0, sh.de, sh.dl).substr(sh.dl ? 3 : 0, sh.dl ? 9 : 1)).c_str());
+      uint32_t w[4];
+      int rn = e.emit(w, m.id, d, s, Imm(1));
+      if (rn != 1) { viol("harness:simdshift-ref:" + kname, fmtstr("reference emission %s %s, #1 failed: %s", m.name, ops.c_str(), DebugUtils::error_as_string(e.last))); continue; }
+      uint32_t ref = w[0] & ~HB;
+      if ((ref & 31) != 3 || ((ref >> 5) & 31) != 5) viol("B:simdshift:" + kname + ":other-bits-changed", fmtstr("%s %s, #1 emitted 0x%08x: Rd/Rn are not 3/5", m.name, ops.c_str(), w[0]));
+      bool left = m.kind == L || m.kind == LL;
+      for (uint64_t n : amounts) {
+        int r = e.emit(w, m.id, d, s, Imm(n));
+        bool exp = left ? n < sh.e : (n >= 1 && n <= sh.e);
+        evals++;
+        if (n <= sh.e + 2) nontrivial++;
+        if (r == 1) accepted++; else refused++;
+        std::string key = "B:simdshift:" + kname + ":";
+        std::string txt = fmtstr("%s %s, #%llu", m.name, ops.c_str(), (unsigned long long)n);
+        if ((r == 1) != exp) {
+          viol(key + (r == 1 ? "accepts-unencodable" : "refuses-encodable"), fmtstr("%s: assembler %s (%s, word 0x%08x) but the %s amount of a %u-bit element is %s", txt.c_str(), r == 1 ? "accepted" : "refused",
+               DebugUtils::error_as_string(e.last), r == 1 ? w[0] : 0, left ? "left shift" : m.kind == F ? "#fbits" : "right shift", sh.e, left ? fmtstr("0..%u", sh.e - 1).c_str() : fmtstr("1..%u", sh.e).c_str()));
+          continue;
+        }
+        if (r != 1) continue;
+        unsigned hb = (w[0] >> 16) & 0x7F;
+        unsigned want = left ? sh.e + unsigned(n) : 2 * sh.e - unsigned(n);
+        if (hb != want) viol(key + "wrong-immediate", fmtstr("%s emitted 0x%08x: immh:immb = %u, wanted %u (%s)", txt.c_str(), w[0], hb, want, left ? "esize + shift" : "2*esize - shift"));
+        if ((w[0] & ~HB) != ref) viol(key + "other-bits-changed", fmtstr("%s emitted 0x%08x: bits outside immh:immb differ from the same instruction with #1 (0x%08x)", txt.c_str(), w[0], ref | (w[0] & HB)));
+        if ((rng.next() & 0x3F) == 0) xs.add(txt, r, w);
+      }
+    }
+  }
+  // fixed-point conversions between a general purpose and an FP register: scale = 64 - fbits, fbits in 1..register size
+  struct G { const char* name; InstId id; bool to_fp; };
+  const G gs[] = { { "scvtf", a64::Inst::kIdScvtf_v, true }, { "ucvtf", a64::Inst::kIdUcvtf_v, true }, { "fcvtzs", a64::Inst::kIdFcvtzs_v, false }, { "fcvtzu", a64::Inst::kIdFcvtzu_v, false } };
+  for (const G& g : gs)
+    for (unsigned W : { 32u, 64u })
+      for (unsigned fe : { 16u, 32u, 64u }) {
+        a64::Gp gp = W == 64 ? a64::Gp(a64::x5) : a64::Gp(a64::w5);
+        a64::Vec fp = vec_of(3, fe, 0);
+        std::string ops = g.to_fp ? fmtstr("%s, %c5", vec_text(3, fe, 0).c_str(), W == 64 ? 'x' : 'w') : fmtstr("%c5, %s", W == 64 ? 'x' : 'w', vec_text(3, fe, 0).c_str());
+        std::string kname = fmtstr("%s:%c,%c", g.name, g.to_fp ? vec_text(3, fe, 0)[0] : (W == 64 ? 'x' : 'w'), g.to_fp ? (W == 64 ? 'x' : 'w') : vec_text(3, fe, 0)[0]);
+        uint32_t w[4];
+        int rn = g.to_fp ? e.emit(w, g.id, fp, gp, Imm(1)) : e.emit(w, g.id, gp, fp, Imm(1));
+        if (rn != 1) { viol("harness:simdshift-ref:" + kname, fmtstr("reference emission %s %s, #1 failed: %s", g.name, ops.c_str(), DebugUtils::error_as_string(e.last))); continue; }
+        const uint32_t SC = 0x3Fu << 10;
+        uint32_t ref = w[0] & ~SC;
+        for (uint64_t n : amounts) {
+          int r = g.to_fp ? e.emit(w, g.id, fp, gp, Imm(n)) : e.emit(w, g.id, gp, fp, Imm(n));
+          bool exp = n >= 1 && n <= W;
+          evals++;
+          if (n <= W + 2) nontrivial++;
+          if (r == 1) accepted++; else refused++;
+          std::string key = "B:simdshift:" + kname + ":";
+          std::string txt = fmtstr("%s %s, #%llu", g.name, ops.c_str(), (unsigned long long)n);
+          if ((r == 1) != exp) {
+            viol(key + (r == 1 ? "accepts-unencodable" : "refuses-encodable"), fmtstr("%s: assembler %s (%s, word 0x%08x) but #fbits of a %u-bit general purpose register is 1..%u", txt.c_str(),
+                 r == 1 ? "accepted" : "refused", DebugUtils::error_as_string(e.last), r == 1 ? w[0] : 0, W, W));
+            continue;
+          }
+          if (r != 1) continue;
+          unsigned scale = (w[0] >> 10) & 0x3F;
+          if (scale != 64 - unsigned(n)) viol(key + "wrong-immediate", fmtstr("%s emitted 0x%08x: scale = %u, wanted %u (64 - fbits)", txt.c_str(), w[0], scale, 64 - unsigned(n)));
+          if ((w[0] & ~SC) != ref) viol(key + "other-bits-changed", fmtstr("%s emitted 0x%08x: bits outside scale differ from the same instruction with #1", txt.c_str(), w[0]));
+          if ((rng.next() & 0x1F) == 0) xs.add(txt, r, w);
+        }
+      }
+  printf("{\"mode\":\"simdshift\",\"evaluations\":%llu,\"nontrivial\":%llu,\"accepted\":%llu,\"refused\":%llu,\"xsamples\":[%s],\"violations\":%s}\n",
+         (unsigned long long)evals, (unsigned long long)nontrivial, (unsigned long long)accepted, (unsigned long long)refused, xs.js.c_str(), viol_json().c_str());
+  return 0;
+}
+
+// ---- the assembler's own displacement path (EmitOp_DispImm: bound label / known base address) ---------------------------
+static int mode_dispimm(const Args& args) {
+  unsigned only = unsigned(args.u64("kind", 99));
+  const uint64_t kBase = 1ull << 40;
+  CodeHolder code;
+  code.init(Environment(Arch::kAArch64), kBase);
+  a64::Assembler a(&code);
+  Label L0 = a.new_label();
+  a.bind(L0);                                   // offset 0: a bound label for the `Mem(label, disp)` route
+  Rng rng(args.u64("seed", 1));
+  uint64_t evals = 0, nontrivial = 0, accepted = 0, refused = 0;
+  enum { T_IMM26, T_IMM19, T_IMM14, T_ADR, T_ADRP };
+  struct K { const char* name; int t; int route; };     // route 0: Imm(absolute target), 1: Mem(bound label, disp)
+  const K ks[] = { { "b", T_IMM26, 0 }, { "bl", T_IMM26, 0 }, { "b.ne", T_IMM19, 0 }, { "cbz", T_IMM19, 0 }, { "cbnz-w", T_IMM19, 0 }, { "tbz", T_IMM14, 0 }, { "tbnz-w", T_IMM14, 0 },
+                   { "adr", T_ADR, 0 }, { "adrp", T_ADRP, 0 }, { "ldr-w-label", T_IMM19, 1 }, { "ldr-x-label", T_IMM19, 1 }, { "ldr-q-label", T_IMM19, 1 }, { "ldrsw-label", T_IMM19, 1 },
+                   { "prfm-label", T_IMM19, 1 } };
+  auto emit = [&](unsigned ki, int64_t v, uint32_t* w) -> bool {
+    a.set_offset(0);
+    uint64_t tgt = kBase + uint64_t(v);
+    Error err;
+    switch (ki) {
+      case 0: err = a.b(Imm(tgt)); break;
+      case 1: err = a.bl(Imm(tgt)); break;
+      case 2: err = a.b_ne(Imm(tgt)); break;
+      case 3: err = a.cbz(a64::x3, Imm(tgt)); break;
+      case 4: err = a.cbnz(a64::w3, Imm(tgt)); break;
+      case 5: err = a.tbz(a64::x3, 37, Imm(tgt)); break;
+      case 6: err = a.tbnz(a64::w3, 5, Imm(tgt)); break;
+      case 7: err = a.adr(a64::x3, Imm(tgt)); break;
+      case 8: err = a.adrp(a64::x3, Imm(tgt)); break;
+      case 9: err = a.ldr(a64::w3, a64::ptr(L0, int32_t(v))); break;
+      case 10: err = a.ldr(a64::x3, a64::ptr(L0, int32_t(v))); break;
+      case 11: err = a.ldr(a64::q3, a64::ptr(L0, int32_t(v))); break;
+      case 12: err = a.ldrsw(a64::x3, a64::ptr(L0, int32_t(v))); break;
+      default: err = a.prfm(Imm(1), a64::ptr(L0, int32_t(v))); break;
+    }
+    if (err != Error::kOk) return false;
+    memcpy(w, a.buffer_data(), 4);
+    return true;
+  };
+  for (unsigned ki = 0; ki < sizeof(ks) / sizeof(ks[0]); ki++) {
+    if (only != 99 && only != ki) continue;
+    const K& k = ks[ki];
+    unsigned bits = k.t == T_IMM26 ? 26 : k.t == T_IMM19 ? 19 : k.t == T_IMM14 ? 14 : 21;
+    unsigned d = k.t == T_ADR ? 0 : k.t == T_ADRP ? 12 : 2;
+    int64_t step = int64_t(1) << d, lo = -(int64_t(1) << (bits - 1)), hi = (int64_t(1) << (bits - 1)) - 1;
+    uint32_t fmask = k.t == T_IMM26 ? 0x03FFFFFFu : k.t == T_IMM19 ? (0x7FFFFu << 5) : k.t == T_IMM14 ? (0x3FFFu << 5) : ((3u << 29) | (0x7FFFFu << 5));
+    uint32_t w = 0;
+    if (!emit(ki, 0, &w)) { viol(std::string("harness:dispimm-ref:") + k.name, "reference emission with displacement 0 failed"); continue; }
+    uint32_t ref = w;
+    if (ref & fmask) viol(std::string("B:dispimm:") + k.name + ":other-bits-changed", fmtstr("%s with displacement 0 emitted 0x%08x: the displacement field is not zero", k.name, w));
+    auto one = [&](int64_t v) {
+      if (k.route == 1 && (v > INT32_MAX || v < INT32_MIN)) return;
+      bool ok = emit(ki, v, &w);
+      bool aligned = (uint64_t(v) & uint64_t(step - 1)) == 0;
+      int64_t q = v >> d;
+      bool exp = aligned && q >= lo && q <= hi;
+      evals++;
+      if (v && (exp || (q >= lo - BAND && q <= hi + BAND))) nontrivial++;
+      if (ok) accepted++; else refused++;
+      std::string key = std::string("B:dispimm:") + k.name + ":";
+      if (ok != exp) { viol(key + (ok ? "accepts-unrepresentable" : "refuses-representable"), fmtstr("%s to pc%+lld: assembler %s, the %u-bit field (x%lld) %s hold it", k.name, (long long)v, ok ? "accepted" : "refused",
+                            bits, (long long)step, exp ? "can" : "cannot")); return; }
+      if (!ok) return;
+      int64_t back;
+      if (k.t == T_ADR || k.t == T_ADRP) back = sext((uint64_t((w >> 5) & 0x7FFFF) << 2) | ((w >> 29) & 3), 21) * step;
+      else if (k.t == T_IMM26) back = sext(w & 0x03FFFFFF, 26) * step;
+      else if (k.t == T_IMM19) back = sext((w >> 5) & 0x7FFFF, 19) * step;
+      else back = sext((w >> 5) & 0x3FFF, 14) * step;
+      if (back != v) viol(key + "field-decodes-to-other-value", fmtstr("%s to pc%+lld emitted 0x%08x whose field decodes to %+lld", k.name, (long long)v, w, (long long)back));
+      if ((w ^ ref) & ~fmask) viol(key + "other-bits-changed", fmtstr("%s to pc%+lld emitted 0x%08x: bits outside the field differ from displacement 0 (0x%08x)", k.name, (long long)v, w, ref));
+    };
+    bool exhaustive = bits <= 21 || args.u64("exh26", 0) != 0;
+    if (exhaustive) {
+      int64_t part = int64_t(args.u64("part", 0)), parts = int64_t(args.u64("parts", 1));
+      int64_t q0 = lo - BAND, total = (hi + BAND) - q0 + 1;
+      for (int64_t q = q0 + total * part / parts; q < q0 + total * (part + 1) / parts; q++) {
+        one(q * step);
+        if (d == 2 && (q & 63) == 0) { one(q * step + 1); one(q * step + 2); one(q * step + 3); }
+        if (d == 12 && (q & 63) == 0) { one(q * step + 1); one(q * step + 2048); one(q * step + 4095); one(q * step + 4); }
+      }
+    }
+    else {
+      for (int side = 0; side < 2; side++) for (int64_t kk = -BAND; kk <= BAND; kk++) { int64_t q = (side ? hi : lo) + kk; one(q * step); one(q * step + 1); one(q * step + 2); }
+      for (int64_t q = -BAND; q <= BAND; q++) one(q * step);
+      for (int i = 0; i < 400000; i++) { int64_t q = lo + int64_t(rng.below(uint64_t(hi - lo + 1))); one(q * step); if ((i & 15) == 0) one(q * step + int64_t(rng.below(uint64_t(step)))); }
+    }
+    for (int b = 20; b < 63; b++) for (int sgn = -1; sgn <= 1; sgn += 2) { one(sgn * (int64_t(1) << b)); one(sgn * (int64_t(1) << b) + step); }
+  }
+  printf("{\"mode\":\"dispimm\",\"evaluations\":%llu,\"nontrivial\":%llu,\"accepted\":%llu,\"refused\":%llu,\"xsamples\":[],\"violations\":%s}\n",
+         (unsigned long long)evals, (unsigned long long)nontrivial, (unsigned long long)accepted, (unsigned long long)refused, viol_json().c_str());
+  return 0;
+}
+
+// ---- load / store offset immediates -----------------------------------------------------------------------------------
+static int mode_ldstoff(const Args& args) {
+  Emu e;
+  XSamples xs(unsigned(args.u64("xsamples", 200)));
+  Rng rng(args.u64("seed", 1));
+  uint64_t evals = 0, nontrivial = 0, accepted = 0, refused = 0;
+  struct K { const char* name; InstId id; int regk; unsigned sz; const char* rt; };    // regk 0 w, 1 x, 2..6 b h s d q
+  auto reg_of = [](int k, unsigned id) -> Reg { return k == 0 ? Reg(a64::w(id)) : k == 1 ? Reg(a64::x(id)) : k == 2 ? Reg(a64::b(id)) : k == 3 ? Reg(a64::h(id)) : k == 4 ? Reg(a64::s(id)) : k == 5 ? Reg(a64::d(id)) : Reg(a64::q(id)); };
+  const K singles[] = {
+    { "ldrb", a64::Inst::kIdLdrb, 0, 0, "w3" }, { "strb", a64::Inst::kIdStrb, 0, 0, "w3" }, { "ldrsb", a64::Inst::kIdLdrsb, 1, 0, "x3" }, { "ldrh", a64::Inst::kIdLdrh, 0, 1, "w3" },
+    { "strh", a64::Inst::kIdStrh, 0, 1, "w3" }, { "ldrsh", a64::Inst::kIdLdrsh, 0, 1, "w3" }, { "ldrsw", a64::Inst::kIdLdrsw, 1, 2, "x3" },
+    { "ldr", a64::Inst::kIdLdr, 0, 2, "w3" }, { "ldr", a64::Inst::kIdLdr, 1, 3, "x3" }, { "str", a64::Inst::kIdStr, 0, 2, "w3" }, { "str", a64::Inst::kIdStr, 1, 3, "x3" },
+    { "ldr", a64::Inst::kIdLdr_v, 2, 0, "b3" }, { "ldr", a64::Inst::kIdLdr_v, 3, 1, "h3" }, { "ldr", a64::Inst::kIdLdr_v, 4, 2, "s3" }, { "ldr", a64::Inst::kIdLdr_v, 5, 3, "d3" },
+    { "ldr", a64::Inst::kIdLdr_v, 6, 4, "q3" }, { "str", a64::Inst::kIdStr_v, 6, 4, "q3" }, { "str", a64::Inst::kIdStr_v, 3, 1, "h3" },
+  };
+  std::vector<int64_t> offs;
+  for (int64_t v = -600; v <= 33000; v++) offs.push_back(v);
+  for (int64_t v = 33000; v <= 70000; v += 7) offs.push_back(v);
+  for (int64_t v : { int64_t(65520), int64_t(65536), int64_t(65528), int64_t(INT32_MAX), int64_t(INT32_MIN), int64_t(-4096), int64_t(1) << 20, int64_t(0x7FFFFFF8) }) offs.push_back(v);
+  for (const K& k : singles) {
+    Reg rt = reg_of(k.regk, 3);
+    uint32_t w[4];
+    for (int mode = 0; mode < 3; mode++) {           // 0 offset, 1 pre-index, 2 post-index
+      for (int64_t v : offs) {
+        if (mode && (v < -300 || v > 300) && (v & 0xFFF) != 0) continue;
+        a64::Mem m = mode == 0 ? a64::ptr(a64::x5, int32_t(v)) : mode == 1 ? a64::ptr_pre(a64::x5, int32_t(v)) : a64::ptr_post(a64::x5, int32_t(v));
+        int n = e.emit(w, k.id, rt, m);
+        int64_t scale = int64_t(1) << k.sz;
+        bool scaled = mode == 0 && v >= 0 && (v % scale) == 0 && (v / scale) < 4096;
+        bool unscaled = v >= -256 && v <= 255;
+        bool exp = scaled || unscaled;
+        evals++; nontrivial += (v != 0);
+        if (n == 1) accepted++; else refused++;
+        std::string key = fmtstr("B:ldstoff:%s-%c%s:", k.name, k.rt[0], mode == 0 ? "" : mode == 1 ? "-pre" : "-post");
+        std::string txt = mode == 0 ? fmtstr("%s %s, [x5, #%lld]", k.name, k.rt, (long long)v) : mode == 1 ? fmtstr("%s %s, [x5, #%lld]!", k.name, k.rt, (long long)v) : fmtstr("%s %s, [x5], #%lld", k.name, k.rt, (long long)v);
+        if ((n == 1) != exp) {
+          viol(key + (n == 1 ? "accepts-unencodable" : "refuses-encodable"), fmtstr("%s: assembler %s (%s, word 0x%08x); encodable offsets are %s-256..255", txt.c_str(), n == 1 ? "accepted" : "refused",
+               DebugUtils::error_as_string(e.last), n == 1 ? w[0] : 0, mode == 0 ? fmtstr("multiples of %lld in 0..%lld and ", (long long)scale, (long long)(4095 * scale)).c_str() : ""));
+          continue;
+        }
+        if (n != 1) continue;
+        bool is_scaled_form = ((w[0] >> 24) & 3) == 1;            // size 111 V 01 opc imm12 (unsigned offset) vs size 111 V 00 opc 0 imm9 xx
+        int64_t back; bool shape_ok;
+        if (is_scaled_form) { back = int64_t((w[0] >> 10) & 0xFFF) * scale; shape_ok = mode == 0; }
+        else {
+          back = sext((w[0] >> 12) & 0x1FF, 9);
+          unsigned idx = (w[0] >> 10) & 3;
+          shape_ok = ((w[0] >> 21) & 1) == 0 && idx == (mode == 0 ? 0u : mode == 1 ? 3u : 1u);
+        }
+        if (((w[0] >> 27) & 7) != 7 || (w[0] & 31) != 3 || ((w[0] >> 5) & 31) != 5) shape_ok = false;
+        if (!shape_ok || back != v) viol(key + "wrong-immediate", fmtstr("%s emitted 0x%08x: %s form whose offset field decodes to %lld", txt.c_str(), w[0], is_scaled_form ? "unsigned-offset" : "unscaled/indexed", (long long)back));
+        if ((rng.next() & 0xFFF) < 2 || (v > 32000 && v < 32800 && (rng.next() & 63) == 0)) xs.add(txt, n, w);
+      }
+    }
+  }
+  // pairs: simm7 * size, all three addressing modes
+  struct P { const char* name; InstId id; int regk; unsigned sz; const char* r1; const char* r2; };
+  const P pairs[] = { { "ldp", a64::Inst::kIdLdp, 0, 2, "w3", "w4" }, { "ldp", a64::Inst::kIdLdp, 1, 3, "x3", "x4" }, { "stp", a64::Inst::kIdStp, 1, 3, "x3", "x4" }, { "ldpsw", a64::Inst::kIdLdpsw, 1, 2, "x3", "x4" },
+                      { "ldp", a64::Inst::kIdLdp_v, 4, 2, "s3", "s4" }, { "ldp", a64::Inst::kIdLdp_v, 5, 3, "d3", "d4" }, { "ldp", a64::Inst::kIdLdp_v, 6, 4, "q3", "q4" }, { "stp", a64::Inst::kIdStp_v, 6, 4, "q3", "q4" },
+                      { "ldnp", a64::Inst::kIdLdnp, 1, 3, "x3", "x4" }, { "stnp", a64::Inst::kIdStnp_v, 6, 4, "q3", "q4" } };
+  for (const P& p : pairs) {
+    Reg r1 = reg_of(p.regk, 3), r2 = reg_of(p.regk, 4);
+    bool np = p.name[2] == 'n';
+    for (int mode = 0; mode < (np ? 1 : 3); mode++)
+      for (int64_t v = -1300; v <= 1300; v++) {
+        a64::Mem m = mode == 0 ? a64::ptr(a64::x5, int32_t(v)) : mode == 1 ? a64::ptr_pre(a64::x5, int32_t(v)) : a64::ptr_post(a64::x5, int32_t(v));
+        uint32_t w[4];
+        if (mode && v == 0) continue;      // write-back by zero: AsmJit uses the plain form (same meaning) - no verdict
+        int n = e.emit(w, p.id, r1, r2, m);
+        int64_t scale = int64_t(1) << p.sz;
+        bool exp = (v % scale) == 0 && v / scale >= -64 && v / scale <= 63;
+        evals++; nontrivial += (v != 0);
+        if (n == 1) accepted++; else refused++;
+        std::string key = fmtstr("B:ldstoff:%s-%c%s:", p.name, p.r1[0], mode == 0 ? "" : mode == 1 ? "-pre" : "-post");
+        std::string txt = mode == 0 ? fmtstr("%s %s, %s, [x5, #%lld]", p.name, p.r1, p.r2, (long long)v) : mode == 1 ? fmtstr("%s %s, %s, [x5, #%lld]!", p.name, p.r1, p.r2, (long long)v) : fmtstr("%s %s, %s, [x5], #%lld", p.name, p.r1, p.r2, (long long)v);
+        if ((n == 1) != exp) { viol(key + (n == 1 ? "accepts-unencodable" : "refuses-encodable"), fmtstr("%s: assembler %s; encodable offsets are multiples of %lld in %lld..%lld", txt.c_str(), n == 1 ? "accepted" : "refused", (long long)scale, (long long)(-64 * scale), (long long)(63 * scale))); continue; }
+        if (n != 1) continue;
+        int64_t back = sext((w[0] >> 15) & 0x7F, 7) * scale;
+        unsigned am = (w[0] >> 23) & 7;   // 000 no-allocate, 001 post, 010 offset, 011 pre
+        unsigned want_am = np ? 0u : mode == 0 ? 2u : mode == 1 ? 3u : 1u;
+        if (back != v || am != want_am || (w[0] & 31) != 3 || ((w[0] >> 10) & 31) != 4 || ((w[0] >> 5) & 31) != 5)
+          viol(key + "wrong-immediate", fmtstr("%s emitted 0x%08x: imm7 decodes to %lld, addressing mode bits %u (wanted %u)", txt.c_str(), w[0], (long long)back, am, want_am));
+        if ((rng.next() & 0x3FF) < 2) xs.add(txt, n, w);
+      }
+  }
+  // ldraa / ldrab: simm10 * 8
+  for (InstId id : { InstId(a64::Inst::kIdLdraa), InstId(a64::Inst::kIdLdrab) })
+    for (int mode = 0; mode < 2; mode++)
+      for (int64_t v = -4200; v <= 4200; v++) {
+        a64::Mem m = mode == 0 ? a64::ptr(a64::x5, int32_t(v)) : a64::ptr_pre(a64::x5, int32_t(v));
+        uint32_t w[4];
+        int n = e.emit(w, id, a64::x3, m);
+        bool exp = (v % 8) == 0 && v / 8 >= -512 && v / 8 <= 511;
+        evals++; nontrivial += (v != 0);
+        if (n == 1) accepted++; else refused++;
+        std::string key = fmtstr("B:ldstoff:%s%s:", id == a64::Inst::kIdLdraa ? "ldraa" : "ldrab", mode ? "-pre" : "");
+        if ((n == 1) != exp) { viol(key + (n == 1 ? "accepts-unencodable" : "refuses-encodable"), fmtstr("[x5, #%lld]%s: assembler %s; encodable offsets are multiples of 8 in -4096..4088", (long long)v, mode ? "!" : "", n == 1 ? "accepted" : "refused")); continue; }
+        if (n != 1) continue;
+        int64_t back = sext((((w[0] >> 22) & 1) << 9) | ((w[0] >> 12) & 0x1FF), 10) * 8;
+        if (back != v || ((w[0] >> 11) & 1) != unsigned(mode)) viol(key + "wrong-immediate", fmtstr("[x5, #%lld]%s emitted 0x%08x: S:imm9 decodes to %lld, W=%u", (long long)v, mode ? "!" : "", w[0], (long long)back, (w[0] >> 11) & 1));
+      }
+  printf("{\"mode\":\"ldstoff\",\"evaluations\":%llu,\"nontrivial\":%llu,\"accepted\":%llu,\"refused\":%llu,\"xsamples\":[%s],\"violations\":%s}\n",
+         (unsigned long long)evals, (unsigned long long)nontrivial, (unsigned long long)accepted, (unsigned long long)refused, xs.js.c_str(), viol_json().c_str());
+  return 0;
+}
+
 int main(int argc, char** argv) {
   Args args(argc, argv);
   std::string mode = args.str("mode", "");
@@ -1288,6 +1852,10 @@ int main(int argc, char** argv) {
   if (mode == "addsub") return mode_addsub(args);
   if (mode == "movwide") return mode_movwide(args);
   if (mode == "bitfield") return mode_bitfield(args);
+  if (mode == "modimm") return mode_modimm(args);
+  if (mode == "simdshift") return mode_simdshift(args);
+  if (mode == "dispimm") return mode_dispimm(args);
+  if (mode == "ldstoff") return mode_ldstoff(args);
   fprintf(stderr, "unknown --mode\n");
   return 3;
 }
